@@ -32,7 +32,7 @@ _UNREADABLE = set()
 
 
 def _shim_open(file, *a, **k):
-    if isinstance(file, str) and file in _UNREADABLE:
+    if isinstance(file, (str, bytes, os.PathLike)) and os.path.abspath(os.fsdecode(os.fspath(file))) in _UNREADABLE:
         raise PermissionError(13, "Permission denied", file)
     return builtins.open(file, *a, **k)
 
@@ -79,7 +79,8 @@ def scratch(ctx):
 # a tree is a list of [relpath, "d"] | [relpath, "f", hex content, readable]; relpaths are relative to the
 # scratch dir; the served root is always base/root
 ROOT_REL = "base/root"
-IN_NAMES = ["a", "b", "f.txt", "index.html", "idx", "sub", "a\\b", "é", "...", "..a", "a b", "root", "base", "xidx", "xindex.html"]
+IN_NAMES = ["a", "b", "f.txt", "index.html", "idx", "sub", "a\\b", "é", "...", "..a", "a b", "root", "base", "xidx", "xindex.html",
+            "A", "F.TXT", "a.tar.gz", "s.js", "\U0001f600"]
 OUT_NAMES = ["index.html", "idx", "secret.txt", "root2", "rootx", "other", "root.txt"]
 
 
@@ -110,6 +111,8 @@ def outside_variant(rng, kind):
     out += [t_dir("base/root2"), sec("base/root2/index.html"), sec("base/root2/idx"), sec("base/root2/f.txt"),
             t_dir("base/root2/sub"), sec("base/root2/sub/index.html")]
     out += [t_dir("base/other"), t_dir("base/rootx")]
+    # the root's own name in another case (a case-insensitive containment test would let it through)
+    out += [t_dir("base/ROOT"), sec("base/ROOT/index.html"), sec("base/ROOT/idx"), sec("base/ROOT/f.txt")]
     if kind == "rich2":
         out += [sec("base/other/index.html"), sec("base/other/idx"), t_dir("base/index.html.d"), sec("base/rootx/index.html"),
                 t_dir("sub"), sec("sub/index.html")]
@@ -159,7 +162,11 @@ def fixed_tree():
            t_file("base/root/xidx", b"x-idx"), t_file("base/root/sub/xindex.html", b"x-index"),
            # index pages that are directories (with and without an index file of their own)
            t_dir("base/root/a"), t_dir("base/root/a/index.html"), t_dir("base/root/a/idx"), t_file("base/root/a/idx/idx", b"deep idx"),
-           t_dir("base/root/b"), t_dir("base/root/b/index.html"), t_file("base/root/b/index.html/index.html", b"deep index")]
+           t_dir("base/root/b"), t_dir("base/root/b/index.html"), t_file("base/root/b/index.html/index.html", b"deep index"),
+           # case variants, extensions with a Content-Encoding / text type, a non-BMP name, an unreadable index page
+           t_file("base/root/A", b"capital A"), t_file("base/root/F.TXT", b"capital F"), t_file("base/root/a.tar.gz", b"\x1f\x8b gz"),
+           t_file("base/root/s.js", b"js();"), t_file("base/root/\U0001f600", b"smile"),
+           t_dir("base/root/noread"), t_file("base/root/noread/index.html", b"hidden", False), t_file("base/root/noread/idx", b"hidden", False)]
     return ins
 
 
@@ -197,6 +204,8 @@ class Mat:
                     f.write(bytes.fromhex(e[2]))
                 if not e[3]:
                     _UNREADABLE.add(p)
+                    if os.geteuid() != 0:
+                        os.chmod(p, 0)
         for d, ds, fs in os.walk(self.T):
             for n in fs + ds:
                 os.utime(os.path.join(d, n), (MTIME, MTIME))
@@ -337,10 +346,23 @@ def parse_cr(v):
     return "bad:" + v
 
 
-def blank(url, method="GET", range_header=None, wrapper=None):
+# how the app is mounted / reached: None = Request.blank defaults (http://localhost, SCRIPT_NAME "")
+ENVS = [None,
+        {"scheme": "https", "host": "example.com:8443", "script": "/mnt/static"},
+        {"scheme": "http", "host": "h", "script": "/m n/\xe9"}]
+
+
+def blank(url, method="GET", range_header=None, wrapper=None, env=None, headers=None):
     from webob import Request
     req = Request.blank(url)
     req.method = method
+    if env:
+        e = ENVS[env]
+        req.environ["wsgi.url_scheme"] = e["scheme"]
+        req.environ["HTTP_HOST"] = e["host"]
+        req.script_name = e["script"]
+    for k, v in (headers or {}).items():
+        req.headers[k] = v
     if range_header is not None:
         req.environ["HTTP_RANGE"] = range_header
     if wrapper is not None:
@@ -394,15 +416,68 @@ def decide(app, req):
     return fw.Err("unexpected:%r" % (r,))
 
 
-def dirapp(T, idx, hide):
-    from webob.static import DirectoryApp
-    return DirectoryApp(os.path.join(T, ROOT_REL), index_page=idx, hide_index_with_redirect=hide)
+# keyword arguments DirectoryApp passes on to FileApp / Response
+KWS = [{}, {"cache_control": "max-age=60"}, {"content_type": "text/plain", "charset": "latin-1"}, {"content_encoding": "gzip"},
+       {"accept_ranges": "none"}]
+# how the DirectoryApp is constructed
+SHAPES = ["kw", "pos", "rel", "slash", "dotted", "pathlib", "late", "subclass"]
+
+
+def dirapp(T, idx, hide, opt=None):
+    """opt: {"shape": one of SHAPES, "kw": index into KWS, "env": index into ENVS} (all optional)."""
+    import pathlib
+    from webob.static import DirectoryApp, FileApp
+    opt = opt or {}
+    shape = opt.get("shape", "kw")
+    kw = dict(KWS[opt.get("kw", 0)])
+    root = os.path.join(T, ROOT_REL)
+    if shape == "pos":
+        return DirectoryApp(root, idx, hide, **kw)
+    if shape == "rel":
+        old = os.getcwd()
+        os.chdir(os.path.join(T, "base"))
+        try:
+            return DirectoryApp("root", index_page=idx, hide_index_with_redirect=hide, **kw)
+        finally:
+            os.chdir(old)
+    if shape == "slash":
+        return DirectoryApp(root + "/", index_page=idx, hide_index_with_redirect=hide, **kw)
+    if shape == "dotted":
+        return DirectoryApp(os.path.join(T, "base", ".", "root2", "..", "root", ""), index_page=idx, hide_index_with_redirect=hide, **kw)
+    if shape == "pathlib":
+        return DirectoryApp(pathlib.Path(root), index_page=idx, hide_index_with_redirect=hide, **kw)
+    if shape == "late":
+        # settings assigned AFTER construction
+        app = DirectoryApp(root, **kw)
+        app.index_page = idx
+        app.hide_index_with_redirect = hide
+        return app
+    if shape == "subclass":
+        class Sub(DirectoryApp):
+            def make_fileapp(self, path):          # the documented customisation point
+                return FileApp(path, **dict(self.fileapp_kw, cache_control="no-cache"))
+        return Sub(root, index_page=idx, hide_index_with_redirect=hide, **kw)
+    return DirectoryApp(root, index_page=idx, hide_index_with_redirect=hide, **kw)
+
+
+def try_dirapp(T, idx, hide, opt=None):
+    """(app, None) or (None, (key, message)): the served directory exists, so construction must succeed for every shape."""
+    try:
+        return dirapp(T, idx, hide, opt), None
+    except Exception as e:  # noqa
+        return None, ("root:raises", "DirectoryApp(<existing root directory>, index_page=%r, hide_index_with_redirect=%r) built as %r raised %s: %s"
+                      % (idx, hide, (opt or {}).get("shape", "kw"), type(e).__name__, e))
+
+
+def rand_opt(rng):
+    return {"shape": rng.choice(SHAPES), "kw": rng.randrange(len(KWS)), "env": rng.choice([0, 0, 1, 2])}
 
 
 # --------------------------------------------------------------------------- URL generation
 SEGS = ["", ".", "..", "...", "%2e%2e", "%2E", "..%2f", "%2f", "a%2f..", "%5c", "..%5c..", "a%5cb", "..a",
         "root", "root2", "rootx", "base", "other", "index.html", "idx", "secret.txt", "nope", "a", "b", "f.txt", "sub",
-        "%c3%a9", "a%20b", "root.txt", "unreadable", "empty", "xidx", "xindex.html"]
+        "%c3%a9", "a%20b", "root.txt", "unreadable", "empty", "xidx", "xindex.html",
+        "A", "F.TXT", "Index.html", "INDEX.HTML", "SUB", "ROOT", "a.tar.gz", "s.js", "%F0%9F%98%80", "Root2"]
 CORE = ["", ".", "..", "%2e%2e", "root", "root2", "base", "index.html", "sub", "f.txt", "xidx", "a", "other"]
 
 
@@ -432,6 +507,12 @@ def names_of(tree):
 
 
 CORE4 = ["", ".", "..", "%2e%2e", "root", "root2", "index.html", "sub", "a"]
+EXTRA_URLS = ["/../ROOT/", "/../ROOT/f.txt", "/../ROOT/index.html", "/../ROOT", "/../Root/f.txt", "/A", "/a", "/F.TXT", "/f.TXT",
+              "/INDEX.HTML", "/Sub/", "/SUB", "/%00", "/f.txt%00", "/a%00/../f.txt", "/%ff", "/%e9t%e9", "/../%ff/", "/%F0%9F%98%80",
+              "/a.tar.gz", "/s.js", "/noread/", "/noread", "/noread/index.html", "/unreadable", "/unreadable/"]
+# index_page values outside the model's domain (idx_ok): with a separator, "." / "..", pointing out of the root, absolute
+CFGS_OUT = [("sub/index.html", False), ("sub/index.html", True), (".", False), ("..", True), ("../secret.txt", False),
+            ("../../secret.txt", False), ("../../index.html", True), ("/etc/hostname", False), ("./idx", False)]
 CFGS = [("index.html", False), ("index.html", True), (None, False), ("idx", True), ("", True), (None, True), ("idx", False)]
 
 
@@ -462,37 +543,62 @@ def ref_expect(T, tree, idx, hide, path_info):
     n = nodes.get(rel)
     if n is not None and n[0] == "d":
         if idx:
-            ip = nodes.get(rel + "/" + idx)
+            if "/" in idx or idx in (".", ".."):
+                # outside the model's domain (idx_ok): resolve the configured index path lexically
+                if idx.startswith("/"):
+                    return ("config-outside",)
+                ic = list(comps)
+                for seg in idx.split("/"):
+                    if seg == "..":
+                        if ic:
+                            ic.pop()
+                    elif seg not in ("", "."):
+                        ic.append(seg)
+                if ic[:len(rootc)] != rootc:
+                    return ("config-outside",)       # the operator's own index_page points out of the root
+                ip = nodes.get("/".join([ROOT_REL] + ic[len(rootc):]))
+            else:
+                ip = nodes.get(rel + "/" + idx)
             if ip is None or ip[0] != "f":
                 return ("status", {404})
             if not path_info.endswith("/"):
                 return ("redirect-slash",)
             return ("file", ip[1], ip[2])
         return ("status", {403, 404})
-    if idx and hide and comps[-1] == idx and len(comps) > len(rootc):
+    if idx and hide and len(comps) > len(rootc) and ("/" + "/".join(comps)).endswith("/" + idx):
         return ("redirect-hide",)
     if n is None:
         return ("status", {404})
     return ("file", n[1], n[2])
 
 
-def check_dir_request(T, tree, idx, hide, url, app=None):
+def check_dir_request(T, tree, idx, hide, url, app=None, opt=None):
     """Evaluate the DirectoryApp part of the property on one GET request.  Returns (key, message) or None,
     and the raw response for the differential test."""
-    app = app or dirapp(T, idx, hide)
-    req = blank(url)
+    if app is None:
+        app, err = try_dirapp(T, idx, hide, opt)
+        if err:
+            return err, None
+    env = (opt or {}).get("env")
+    req = blank(url, env=env)
     try:
         pi = req.path_info
     except UnicodeDecodeError:
+        # outside the statement's domain (undecodable PATH_INFO): nothing may be served
+        res = get_full(app, blank(url, env=env))
+        if not isinstance(res, fw.Err) and res[0] in (200, 206, 301):
+            return ("dirapp:undecodable-path-served", "GET %s (PATH_INFO is not valid UTF-8) was answered %d" % (url, res[0])), None
         return None, None
     res = get_full(app, req)
     if isinstance(res, fw.Err):
         return ("dirapp:raises", "GET %s raised %s" % (url, res.name)), res
     st, headers, body = res
+    exp = ref_expect(T, tree, idx, hide, pi)
+    if exp[0] == "config-outside":
+        return None, None            # index_page itself points out of the root: the operator's choice, outside the statement
     if MARK in body:
         return ("dirapp:outside-content-served",
                 "GET %s -> %d with the content of a file outside the root: %r" % (url, st, body[:60])), res
-    exp = ref_expect(T, tree, idx, hide, pi)
     if exp[0] == "outside":
         if st not in (403, 404):
             key = "dirapp:outside-200" if st == 200 else "dirapp:outside-redirect" if st in (301, 302) else "dirapp:outside-status"
@@ -529,12 +635,46 @@ def check_dir_request(T, tree, idx, hide, url, app=None):
         return ("dirapp:wrong-location", "GET %s redirects to %r, expected %r" % (url, loc, want)), res
     if exp[0] == "redirect-slash" and url.startswith("/"):
         # following the redirect serves the index page
-        res2 = get_full(app, blank(urllib.parse.urlsplit(loc).path + ("?" + req.query_string if req.query_string else "")))
+        res2 = get_full(app, blank(url.split("?", 1)[0] + "/" + ("?" + req.query_string if req.query_string else ""), env=env))
         ip = ref_expect(T, tree, idx, hide, pi + "/")
         if isinstance(res2, fw.Err) or ip[0] != "file" or (ip[2] and (res2[0] != 200 or res2[2] != ip[1])):
             return ("dirapp:index-after-redirect", "GET %s -> 301 %s, which does not serve the index page: %r"
                     % (url, loc, res2 if isinstance(res2, fw.Err) else (res2[0], res2[2][:40]))), res
     return None, res
+
+
+def check_dir_method(T, tree, idx, hide, url, meth, rh, wr, app=None, opt=None):
+    """Any method, with/without Range and wsgi.file_wrapper, on a path of the tree: GET and HEAD agree on status and headers
+    (a target that can be stat'ed but not opened is refused for HEAD as for GET), other methods never get file bytes."""
+    if app is None:
+        app, err = try_dirapp(T, idx, hide, opt)
+        if err:
+            return err
+    env = (opt or {}).get("env")
+    a = get_full(app, blank(url, meth, rh, wr, env=env))
+    g = get_full(app, blank(url, "GET", rh, wr, env=env))
+    if isinstance(a, fw.Err) or isinstance(g, fw.Err):
+        return ("dirapp:raises", "%s %s Range=%r raised %r / GET %r" % (meth, url, rh, a if isinstance(a, fw.Err) else a[0],
+                                                                       g if isinstance(g, fw.Err) else g[0]))
+    exp = ref_expect(T, tree, idx, hide, blank(url).path_info)
+    if exp[0] == "config-outside":
+        return None
+    if meth == "HEAD":
+        if a[0] != g[0] or a[2] != b"" or (a[0] in (200, 206, 416) and a[1] != g[1]):
+            return ("dirapp:head-differs", "HEAD %s Range=%r answered %d %r, GET answered %d %r"
+                    % (url, rh, a[0], [h for h in a[1] if h not in g[1]], g[0], [h for h in g[1] if h not in a[1]]))
+        if exp[0] == "file" and not exp[2] and a[0] != 403:
+            return ("dirapp:unreadable-not-403", "HEAD %s names a file that cannot be opened, answered %d" % (url, a[0]))
+    elif meth != "GET":
+        if a[0] in (200, 206) or (exp[0] == "file" and a[0] != 405):
+            return ("dirapp:method-not-405", "%s %s answered %d (GET: %d)" % (meth, url, a[0], g[0]))
+        if exp[0] == "file" and len(exp[1]) > 3 and exp[1] in a[2]:
+            return ("dirapp:method-not-405", "%s %s carries the file's bytes" % (meth, url))
+    if exp[0] == "file" and exp[2] and meth in ("GET", "HEAD") and a[0] in (200, 206, 416):
+        m = check_file_response(exp[1], meth, rh, a, expect_for(rh, len(exp[1])))
+        if m:
+            return m
+    return None
 
 
 def nonint_diff(url, r1, r2):
@@ -574,9 +714,13 @@ def rfc_slice(form, a, b, n):
     return (n - a, n)
 
 
-def check_file_response(content, method, rh, res, expect=None):
+def check_file_response(content, method, rh, res, expect=None, allow304=False):
     """Self-consistency of a FileApp answer for a readable file, plus the expected slice when given."""
     n = len(content)
+    if allow304 and not isinstance(res, fw.Err) and res[0] == 304:
+        if res[2] or hdr(res[1], "Content-Range") is not None:
+            return ("fileapp:wrong-304", "%s Range=%r: 304 with a body %r / Content-Range" % (method, rh, res[2][:40]))
+        return None
     if isinstance(res, fw.Err):
         return ("fileapp:raises", "%s Range=%r raised %s" % (method, rh, res.name))
     st, headers, body = res
@@ -616,8 +760,9 @@ def check_file_response(content, method, rh, res, expect=None):
     return None
 
 
-def file_case(T, content, method, rh, bs, wrapper, caps=None):
+def file_case(T, content, method, rh, bs, wrapper, caps=None, headers=None, shape=None):
     """Run FileApp on a scratch file holding `content`."""
+    import pathlib
     from webob.static import FileApp
     p = os.path.join(T, "fa.bin")
     if getattr(file_case, "_cur", None) != (T, content):
@@ -625,10 +770,17 @@ def file_case(T, content, method, rh, bs, wrapper, caps=None):
             f.write(content)
         os.utime(p, (MTIME, MTIME))
         file_case._cur = (T, content)
-    app = FileApp(p)
+    if shape == "pathlib":
+        app = FileApp(pathlib.Path(p))
+    elif shape == "kw":
+        app = FileApp(p, content_type="text/plain", charset="latin-1", cache_control="max-age=1", accept_ranges="none")
+    elif shape == "gzip":
+        app = FileApp(p, content_encoding="gzip", content_type="application/x-tar")
+    else:
+        app = FileApp(p)
     if caps:
         app._open = lambda fn, mode: ShortReader(open(fn, mode), caps)
-    return get_full(app, blank("/", method, rh, wrapper), bs)
+    return get_full(app, blank("/", method, rh, wrapper, headers=headers), bs)
 
 
 def check_fileapp_methods(T, content, bs, wrapper):
@@ -648,22 +800,150 @@ def check_fileapp_methods(T, content, bs, wrapper):
 
 
 def check_fileapp_missing(T):
+    """Targets that cannot be served — missing, a directory (stat works, open does not), an unreadable file — for EVERY
+    method, with/without Range and wsgi.file_wrapper, FileApp built from str / pathlib / relative names and with keywords."""
+    import pathlib
     from webob.static import FileApp
     os.makedirs(os.path.join(T, "fa.dir"), exist_ok=True)
-    with open(os.path.join(T, "fa.unr"), "wb") as f:
+    p = os.path.join(T, "fa.unr")
+    if os.path.exists(p):
+        os.chmod(p, 0o600)
+    with open(p, "wb") as f:
         f.write(b"unreadable")
-    _UNREADABLE.add(os.path.join(T, "fa.unr"))
+    _UNREADABLE.add(p)
+    if os.geteuid() != 0:
+        os.chmod(p, 0)
     out = []
+    n = 0
+    old = os.getcwd()
     for name, want in (("fa.nope", 404), ("fa.dir", 403), ("fa.unr", 403)):
-        for meth in ("GET", "HEAD"):
-            for rh in (None, "bytes=0-1"):
-                r = get_full(FileApp(os.path.join(T, name)), blank("/", meth, rh))
-                if isinstance(r, fw.Err) or r[0] != want or b"unreadable" in r[2]:
-                    out.append(("fileapp:missing-or-unreadable", "%s %s Range=%r answered %r, expected %d"
-                                % (meth, name, rh, r if isinstance(r, fw.Err) else r[0], want)))
-        r = get_full(FileApp(os.path.join(T, name)), blank("/", "POST"))
-        if isinstance(r, fw.Err) or r[0] != 405:
-            out.append(("fileapp:method-not-405", "POST %s answered %r" % (name, r)))
+        full = os.path.join(T, name)
+        makers = [("str", lambda: FileApp(full)), ("pathlib", lambda: FileApp(pathlib.Path(full))),
+                  ("kw", lambda: FileApp(full, content_type="text/plain", charset="latin-1", cache_control="max-age=1")),
+                  ("positional-kw", lambda: FileApp(filename=full))]
+        for mk_name, mk in makers:
+            for meth in ("GET", "HEAD", "POST", "PUT", "DELETE", "OPTIONS", "head", ""):
+                for rh in (None, "bytes=0-1", "bytes=-1"):
+                    for wr in (None, [1, 1]):
+                        n += 1
+                        r = get_full(mk(), blank("/", meth, rh, wr))
+                        w = want if meth in ("GET", "HEAD") else 405
+                        if isinstance(r, fw.Err) or r[0] != w or b"unreadable" in r[2] or (meth == "HEAD" and r[2]):
+                            out.append(("fileapp:missing-or-unreadable", "%s %s (FileApp from %s) Range=%r wrapper=%r answered %r, expected %d"
+                                        % (meth or "(empty method)", name, mk_name, rh, wr, r if isinstance(r, fw.Err) else r[0], w)))
+        # a relative file name, resolved against the cwd at request time
+        os.chdir(T)
+        try:
+            r = get_full(FileApp(name), blank("/", "HEAD"))
+            n += 1
+            if isinstance(r, fw.Err) or r[0] != want:
+                out.append(("fileapp:missing-or-unreadable", "HEAD %s (relative name) answered %r, expected %d" % (name, r, want)))
+        finally:
+            os.chdir(old)
+    check_fileapp_missing.count = n
+    return out
+
+
+def check_outside_domain(ctx, T, mat):
+    """Inputs the model excludes, visited on the real code for what remains meaningful there (observations that are outside
+    the statement are written to the evidence, coverage.outside_domain, not failed)."""
+    from webob.static import DirectoryApp, FileApp, FileIter
+    from webob.response import AppIterRange, Response
+    out, obs, n = [], {}, 0
+    # -- block sizes <= 0: the iterator must terminate (exact bytes are only claimed for positive block sizes)
+    for bs in (0, -1, -7):
+        for seek, limit in ((None, None), (2, None), (1, 4), (0, 0)):
+            r, _f = run_fileiter(b"0123456789", seek, limit, bs, [])
+            n += 1
+            obs["FileIter block_size=%d seek=%r limit=%r" % (bs, seek, limit)] = repr(r)
+            if isinstance(r, fw.Err):
+                out.append(("fileiter:raises", "FileIter block_size=%d seek=%r limit=%r raised %s" % (bs, seek, limit, r.name)))
+    # -- limit < seek (never produced by Response.app_iter_range): documented XXX in webob's own tests; must terminate
+    r, _f = run_fileiter(b"0123456789", 5, 2, 3, [])
+    obs["FileIter seek=5 limit=2"] = repr(r)
+    n += 1
+    # -- AppIterRange with start == stop (allowed by its assertion): nothing
+    for chunks in ([b"abc", b"", b"de"], []):
+        for k in (0, 2, 3, 9):
+            r = run_air(chunks, k, k)
+            n += 1
+            if isinstance(r, fw.Err) or b"".join(r) != b"":
+                out.append(("air:wrong-slice", "AppIterRange(%r, %d, %d) yields %r, expected nothing" % (chunks, k, k, r)))
+    # -- the wrapped iterable's type: list / tuple / generator / iterator / object with close(); Response.app_iter_range on each
+    data = [b"ab", b"", b"cde", b"f"]
+    closed = []
+
+    class It:
+        def __iter__(self):
+            return iter(data)
+
+        def close(self):
+            closed.append(1)
+    for label, mk in (("list", lambda: list(data)), ("tuple", lambda: tuple(data)), ("generator", lambda: (c for c in data)),
+                      ("iterator", lambda: iter(data)), ("object", It)):
+        for a, b in ((0, 6), (1, 4), (2, 3), (5, 6), (3, 9)):
+            n += 2
+            r1 = list(AppIterRange(mk(), a, b))
+            r2 = list(Response(app_iter=mk()).app_iter_range(a, b))
+            if b"".join(r1) != b"abcdef"[a:b] or b"".join(r2) != b"abcdef"[a:b]:
+                out.append(("air:wrong-slice", "AppIterRange over a %s, %d:%d yields %r / Response.app_iter_range %r" % (label, a, b, r1, r2)))
+    # -- FileIter argument shapes: positional / keyword / __iter__
+    for seek, limit, bs in ((2, 7, 3), (0, 4, 2), (None, None, 4), (3, None, 2)):
+        want = b"0123456789"[(seek or 0):limit]
+        shapes = {"positional": lambda f: f.app_iter_range(seek, limit, bs),
+                  "keyword": lambda f: f.app_iter_range(block_size=bs, limit=limit, seek=seek),
+                  "mixed": lambda f: f.app_iter_range(seek, block_size=bs, limit=limit)}
+        if seek is None and limit is None:
+            shapes["__iter__"] = lambda f: iter(f)
+        for label, call in shapes.items():
+            n += 1
+            got = b"".join(call(FileIter(io.BytesIO(b"0123456789"))))
+            if got != want:
+                out.append(("fileiter:wrong-slice", "FileIter.app_iter_range called %s with seek=%r limit=%r block_size=%r yields %r, expected %r"
+                            % (label, seek, limit, bs, got, want)))
+    # -- file names as bytes: refused or served, never something else
+    p = os.path.join(T, "fa.bytes")
+    with open(p, "wb") as f:
+        f.write(b"bytes name")
+    n += 1
+    try:
+        r = get_full(FileApp(os.fsencode(p)), blank("/"))
+        obs["FileApp(bytes filename)"] = repr(r if isinstance(r, fw.Err) else r[0])
+        if not isinstance(r, fw.Err) and (r[0] != 200 or r[2] != b"bytes name"):
+            out.append(("fileapp:wrong-200", "FileApp(bytes filename) answered %r" % (r,)))
+    except Exception as e:  # noqa
+        obs["FileApp(bytes filename)"] = "constructor raises " + type(e).__name__
+    try:
+        DirectoryApp(os.fsencode(os.path.join(T, "base")))
+        obs["DirectoryApp(bytes path)"] = "accepted"
+    except Exception as e:  # noqa
+        obs["DirectoryApp(bytes path)"] = "constructor raises " + type(e).__name__
+    n += 1
+    try:
+        DirectoryApp(os.path.join(T, "no-such-dir"))
+        out.append(("root:missing-accepted", "DirectoryApp(<missing directory>) did not raise"))
+    except OSError:
+        pass
+    # -- symbolic links (excluded from the statement: the layout inside the root is the operator's): a link to a file inside
+    #    the root serves that file's bytes; a lexically escaping path stays refused whatever links exist; links out are followed
+    mat.build(full_tree(fixed_tree(), outside_variant(None, "rich")))
+    root = os.path.join(T, ROOT_REL)
+    os.symlink(os.path.join(root, "f.txt"), os.path.join(root, "ln-in"))
+    os.symlink(os.path.join(T, "base", "secret.txt"), os.path.join(root, "ln-out"))
+    os.symlink(os.path.join(T, "base"), os.path.join(root, "ln-up"))
+    app = dirapp(T, "index.html", False)
+    r = get_full(app, blank("/ln-in"))
+    n += 4
+    if isinstance(r, fw.Err) or r[0] != 200 or r[2] != b"F":
+        out.append(("dirapp:wrong-bytes", "GET /ln-in (symlink to f.txt inside the root) answered %r" % (r,)))
+    for u in ("/ln-up/../../secret.txt", "/ln-in/../../secret.txt"):
+        r = get_full(app, blank(u))
+        if isinstance(r, fw.Err) or r[0] not in (403, 404):
+            out.append(("dirapp:outside-status", "GET %s answered %r" % (u, r if isinstance(r, fw.Err) else r[0])))
+    r = get_full(app, blank("/ln-out"))
+    obs["GET /ln-out (symlink inside the root to a file outside it)"] = repr(r if isinstance(r, fw.Err) else r[0])
+    ctx.extra["outside_domain"] = obs
+    check_outside_domain.count = n
     return out
 
 
@@ -875,7 +1155,8 @@ def _short(r):
 
 
 def gen_dir_history(rng, tree, nsteps):
-    """Steps: ['req', url, method, range, wrapper, bs] | ['write', relpath, hex] | ['unlink', relpath]"""
+    """Steps: ['req', url, method, range, wrapper, bs, env] | ['write', relpath, hex] | ['unlink', relpath] |
+    ['config', index_page, hide]  (the settings re-assigned on the live object)"""
     nodes = tree_nodes(tree)
     names = names_of(tree)
     steps = []
@@ -893,8 +1174,10 @@ def gen_dir_history(rng, tree, nsteps):
             else:
                 url = rand_url(rng, names)
             meth, rh, wr, bs = rand_req_step(rng, 8)
-            steps.append(["req", url, meth, rh, wr, bs])
-        elif r < 0.90:
+            steps.append(["req", url, meth, rh, wr, bs, rng.choice([0, 0, 1, 2])])
+        elif r < 0.83:
+            steps.append(["config"] + list(rng.choice(CFGS)))
+        elif r < 0.92:
             if inside_files and rng.random() < 0.6:
                 rel = rng.choice(inside_files)
             elif removed and rng.random() < 0.5:
@@ -921,13 +1204,21 @@ def dirapp_state(app):
     return (app.path, app.index_page, app.hide_index_with_redirect, sorted((k, repr(v)) for k, v in app.fileapp_kw.items()))
 
 
-def run_dir_history(T, mat, tree, idx, hide, steps):
-    """One long-lived DirectoryApp over a sequence of requests and file changes inside the root."""
+def run_dir_history(T, mat, tree, idx, hide, steps, opt=None):
+    """One long-lived DirectoryApp over a sequence of requests, file changes inside the root and re-assigned settings."""
     mat.build(tree)
     cur = [list(e) for e in tree]
-    live = dirapp(T, idx, hide)
+    live, err = try_dirapp(T, idx, hide, opt)
+    if err:
+        return err
     state0 = dirapp_state(live)
     for i, st_ in enumerate(steps):
+        if st_[0] == "config":
+            idx, hide = st_[1], st_[2]
+            live.index_page = idx
+            live.hide_index_with_redirect = hide
+            state0 = dirapp_state(live)
+            continue
         if st_[0] == "write":
             p = os.path.join(T, st_[1])
             _UNREADABLE.discard(p)
@@ -942,14 +1233,16 @@ def run_dir_history(T, mat, tree, idx, hide, steps):
             os.unlink(p)
             cur = [e for e in cur if e[0] != st_[1]]
             continue
-        _, url, meth, rh, wr, bs = st_
-        req = blank(url, meth, rh, wr)
+        url, meth, rh, wr, bs = st_[1:6]
+        env = st_[6] if len(st_) > 6 else 0
+        o2 = dict(opt or {}, env=env)
+        req = blank(url, meth, rh, wr, env=env)
         try:
             req.path_info
         except UnicodeDecodeError:
             continue
         a = get_full(live, req, bs)
-        b = get_full(dirapp(T, idx, hide), blank(url, meth, rh, wr), bs)
+        b = get_full(dirapp(T, idx, hide, opt), blank(url, meth, rh, wr, env=env), bs)
         where = "step %d %r of the history" % (i, st_)
         if a != b:
             return ("history:dirapp-differs-from-fresh", "%s: the long-lived DirectoryApp answers %r, a fresh one answers %r"
@@ -958,7 +1251,7 @@ def run_dir_history(T, mat, tree, idx, hide, steps):
             return ("history:dirapp-state-changed", "%s changed the DirectoryApp's attributes: %r -> %r"
                     % (where, state0, dirapp_state(live)))
         if meth == "GET" and rh is None:
-            m, _r = check_dir_request(T, cur, idx, hide, url, live)
+            m, _r = check_dir_request(T, cur, idx, hide, url, live, o2)
             if m:
                 return (hkey(m[0]), "%s: %s" % (where, m[1]))
         elif not isinstance(a, fw.Err) and a[0] in (200, 206):
@@ -991,8 +1284,10 @@ def run_order_independence(T, mat, tree, idx, hide, reqs, perm):
 
 
 # --------------------------------------------------------------------------- case records / replay
-def case_dir(tree, idx, hide, url, alt_outside=None, inside=None):
+def case_dir(tree, idx, hide, url, alt_outside=None, inside=None, opt=None):
     c = {"kind": "dirapp", "tree": tree, "idx": idx, "hide": hide, "url": url}
+    if opt:
+        c["opt"] = opt
     if alt_outside is not None:
         c["alt_outside"] = alt_outside
         c["inside"] = inside
@@ -1005,29 +1300,39 @@ def oracle_case(ctx, T, mat, case):
     out = []
     if k == "dirapp":
         mat.build(case["tree"])
-        m, r1 = check_dir_request(T, case["tree"], case["idx"], case["hide"], case["url"])
+        m, r1 = check_dir_request(T, case["tree"], case["idx"], case["hide"], case["url"], None, case.get("opt"))
         if m:
             out.append(m)
         if case.get("alt_outside") is not None:
             mat.swap_outside(case["inside"], case["alt_outside"])
-            m2, r2 = check_dir_request(T, mat.current, case["idx"], case["hide"], case["url"])
+            m2, r2 = check_dir_request(T, mat.current, case["idx"], case["hide"], case["url"], None, case.get("opt"))
             if m2:
                 out.append(m2)
             d = nonint_diff(case["url"], r1, r2)
             if d:
                 out.append(d)
+    elif k == "dirapp-method":
+        mat.build(case["tree"])
+        m = check_dir_method(T, case["tree"], case["idx"], case["hide"], case["url"], case["method"], case["range"], case["wrapper"],
+                             None, case.get("opt"))
+        if m:
+            out.append(m)
     elif k == "fileapp":
         content = bytes.fromhex(case["content"])
         if case.get("methods"):
             m = check_fileapp_methods(T, content, case["bs"], case["wrapper"])
         else:
-            res = file_case(T, content, case["method"], case["range"], case["bs"], case["wrapper"], case.get("caps"))
+            res = file_case(T, content, case["method"], case["range"], case["bs"], case["wrapper"], case.get("caps"),
+                            case.get("headers"), case.get("shape"))
             exp = case.get("expect")
-            m = check_file_response(content, case["method"], case["range"], res, tuple(exp) if isinstance(exp, list) else exp)
+            m = check_file_response(content, case["method"], case["range"], res, tuple(exp) if isinstance(exp, list) else exp,
+                                    bool(case.get("headers")))
         if m:
             out.append(m)
     elif k == "fileapp-missing":
         out += check_fileapp_missing(T)
+    elif k == "outside-domain":
+        out += check_outside_domain(ctx, T, mat)
     elif k == "fileiter":
         m = check_fileiter(bytes.fromhex(case["content"]), case["seek"], case["limit"], case["bs"], case["caps"])
         if m:
@@ -1037,6 +1342,7 @@ def oracle_case(ctx, T, mat, case):
         if m:
             out.append(m)
     elif k == "root":
+        mat.build(full_tree(fixed_tree(), outside_variant(None, "rich")))
         m = check_root(T, mat, case["spelling"])
         if m:
             out.append(m)
@@ -1045,7 +1351,7 @@ def oracle_case(ctx, T, mat, case):
         if m:
             out.append(m)
     elif k == "history-dir":
-        m = run_dir_history(T, mat, case["tree"], case["idx"], case["hide"], case["steps"])
+        m = run_dir_history(T, mat, case["tree"], case["idx"], case["hide"], case["steps"], case.get("opt"))
         if m:
             out.append(m)
     elif k == "history-order":
@@ -1059,6 +1365,7 @@ def check_root(T, mat, spelling):
     """DirectoryApp(path).path is the directory's normalised absolute name with exactly one trailing separator."""
     from webob.static import DirectoryApp
     old = os.getcwd()
+    spelling = spelling.replace("{T}", T)
     os.chdir(os.path.join(T, "base"))
     try:
         p = DirectoryApp(spelling).path
@@ -1300,17 +1607,18 @@ def _run(ctx, T, mat):
         ctx.broken.append("model of os.path.abspath disagrees with CPython on %r" % (cases[i][2],))
 
     # ------------------------------------------------------------------ correspondence 2: DirectoryApp.__init__
-    spellings = ["root", "./root", "root/", "root//", "../base/root", "root/sub/..", T + "/base/root", T + "/base/root/",
-                 T + "//base/./root", "root/./", "root/empty/../", ".//root", "root2/../root", "root/sub/../../root"]
+    # "{T}" stands for the scratch directory (replays run in another one)
+    spellings = ["root", "./root", "root/", "root//", "../base/root", "root/sub/..", "{T}/base/root", "{T}/base/root/",
+                 "{T}//base/./root", "root/./", "root/empty/../", ".//root", "root2/../root", "root/sub/../../root"]
     cases = []
     os.chdir(os.path.join(T, "base"))
     try:
         for s in spellings:
             try:
-                p = st.DirectoryApp(s).path
+                p = st.DirectoryApp(s.replace("{T}", T)).path
             except Exception as e:  # noqa
                 p = fw.Err(type(e).__name__)
-            cases.append((cpair(cstr(os.path.join(T, "base")), cstr(s)), p, {"kind": "root", "spelling": s}))
+            cases.append((cpair(cstr(os.path.join(T, "base")), cstr(s.replace("{T}", T))), p, {"kind": "root", "spelling": s}))
     finally:
         os.chdir(old)
     bad = ctx.corr("dirapp-root", IMPORTS, "(fun c => VStr (dirapp_root (fst c) (snd c)))", cases, in_type="(str * str)")
@@ -1346,15 +1654,23 @@ def _run(ctx, T, mat):
         for j in range(per_tree):
             idx, hide = rng.choice(CFGS)
             url = fixed_urls[j] if j < len(fixed_urls) else rand_url(rng, names)
-            app = apps.get((idx, hide)) or apps.setdefault((idx, hide), dirapp(T, idx, hide))
-            req = blank(url)
+            if (idx, hide) not in apps:
+                o_ = rand_opt(rng)
+                a_, err = try_dirapp(T, idx, hide, o_)
+                if err:
+                    ctx.fail(err[0], err[1], case_dir(tree, idx, hide, "/", opt=o_), True, "corr")
+                apps[(idx, hide)] = (o_, a_)
+            opt, app = apps[(idx, hide)]
+            if app is None:
+                continue
+            req = blank(url, env=opt["env"])
             try:
                 pi, purl, qs = req.path_info, req.path_url, req.query_string
             except UnicodeDecodeError:
                 continue
             d = decide(app, req)
             lit = "(%d%%nat, %s, %s, %s)" % (ti, cidx(idx), cbool(hide), cdreq(pi, purl, qs))
-            dcases.append((lit, d, case_dir(tree, idx, hide, url)))
+            dcases.append((lit, d, case_dir(tree, idx, hide, url, opt=opt)))
             if j % 3 == 0:
                 # end to end, with a method / Range / iterator kind
                 meth = rng.choice(["GET", "GET", "GET", "HEAD", "POST"])
@@ -1373,7 +1689,7 @@ def _run(ctx, T, mat):
                 else:
                     wr = [rng.randrange(0, 5) for _ in range(rng.randrange(0, 4))]
                     kind, bs = ("wr", wr), None
-                res = get_full(app, blank(url, meth, rh, wr), bs)
+                res = get_full(app, blank(url, meth, rh, wr, env=opt["env"]), bs)
                 if isinstance(res, fw.Err):
                     obs = res
                 else:
@@ -1385,7 +1701,7 @@ def _run(ctx, T, mat):
                 # the served file's content is needed by chunk_by: resolve it in the model through CONTENT := body of a plain GET
                 flit = "(fun CONTENT : bytes => mkFreq %s %s %s)" % (cstr(meth), crange(rp), ckind(kind))
                 lit2 = "(%d%%nat, %s, %s, %s, %s)" % (ti, cidx(idx), cbool(hide), cdreq(pi, purl, qs), flit)
-                scases.append((lit2, obs, dict(case_dir(tree, idx, hide, url), method=meth, range=rh, bs=bs, wrapper=wr)))
+                scases.append((lit2, obs, dict(case_dir(tree, idx, hide, url, opt=opt), method=meth, range=rh, bs=bs, wrapper=wr)))
     # the generated trees are compiled once (Coq parses big literals slowly) into a scratch Gen file
     tmod, tfiles = write_trees(ctx, T, tree_lits)
     try:
@@ -1541,35 +1857,59 @@ def _run(ctx, T, mat):
                 ex_urls.append("/" + "/".join(segs) + "/")
     variants = [("rich", rich), ("rich2", rich2), ("empty", [])]
     for ti, inside in enumerate(insides):
-        urls = list(ex_urls) if ti == 0 else []
         names = names_of(full_tree(inside, rich2))
-        urls += [rand_url(rng, names) for _ in range(ctx.scale(400, 1500))]
-        cfgs = CFGS if ti == 0 else [CFGS[ti % len(CFGS)], CFGS[(ti * 3 + 1) % len(CFGS)]]
+        rurls = EXTRA_URLS + [rand_url(rng, names) for _ in range(ctx.scale(400, 1500))]
+        # (settings, how the app is built and reached, urls)
+        if ti == 0:
+            plan = [(c, ({} if k % 2 == 0 else rand_opt(rng)), ex_urls + rurls) for k, c in enumerate(CFGS)]
+            plan += [(c, rand_opt(rng), rurls[:ctx.scale(150, 600)]) for c in CFGS_OUT]
+        else:
+            plan = [(CFGS[ti % len(CFGS)], rand_opt(rng), rurls), (CFGS[(ti * 3 + 1) % len(CFGS)], rand_opt(rng), rurls)]
         v1, v2 = variants[ti % 3], variants[(ti + 1) % 3]
         mat.build(full_tree(inside, v1[1]))
         first = {}
-        for idx, hide in cfgs:
-            app = dirapp(T, idx, hide)
+        for pi_, ((idx, hide), opt, urls) in enumerate(plan):
+            app, err = try_dirapp(T, idx, hide, opt)
+            if err:
+                ctx.fail(err[0], err[1], case_dir(mat.current, idx, hide, "/", opt=opt), True, "dirapp")
+                for url in urls:
+                    first[(pi_, url)] = None
+                continue
             for url in urls:
-                m, res = check_dir_request(T, mat.current, idx, hide, url, app)
+                m, res = check_dir_request(T, mat.current, idx, hide, url, app, opt)
                 nA += 1
                 if res is not None and not isinstance(res, fw.Err) and res[0] in (200, 301):
                     nontrivA += 1
                 if m:
-                    ctx.fail(m[0], m[1], case_dir(mat.current, idx, hide, url), True, "dirapp")
-                first[(idx, hide, url)] = res
+                    ctx.fail(m[0], m[1], case_dir(mat.current, idx, hide, url, opt=opt), True, "dirapp")
+                first[(pi_, url)] = res
+            if ti < 3:
+                # every method on targets that can be stat'ed but not opened, and on everything else the tree holds
+                for e in mat.current:
+                    if not e[0].startswith(ROOT_REL + "/"):
+                        continue
+                    u = urllib.parse.quote(e[0][len(ROOT_REL):])
+                    for meth in ("GET", "HEAD", "POST", "OPTIONS"):
+                        for rh, wr in ((None, None), ("bytes=0-0", None), (None, [1]), ("bytes=-1", [2])):
+                            nA += 1
+                            mm = check_dir_method(T, mat.current, idx, hide, u, meth, rh, wr, app, opt)
+                            if mm:
+                                ctx.fail(mm[0], mm[1], dict(case_dir(mat.current, idx, hide, u, opt=opt), kind="dirapp-method",
+                                                            method=meth, range=rh, wrapper=wr), True, "dirapp")
         t1 = mat.current
         mat.swap_outside(inside, v2[1])
-        for idx, hide in cfgs:
-            app = dirapp(T, idx, hide)
+        for pi_, ((idx, hide), opt, urls) in enumerate(plan):
+            app, err = try_dirapp(T, idx, hide, opt)
+            if err:
+                continue
             for url in urls:
-                m, res = check_dir_request(T, mat.current, idx, hide, url, app)
+                m, res = check_dir_request(T, mat.current, idx, hide, url, app, opt)
                 nA += 1
                 if m:
-                    ctx.fail(m[0], m[1], case_dir(mat.current, idx, hide, url), True, "dirapp")
-                dd = nonint_diff(url, first[(idx, hide, url)], res)
+                    ctx.fail(m[0], m[1], case_dir(mat.current, idx, hide, url, opt=opt), True, "dirapp")
+                dd = nonint_diff(url, first[(pi_, url)], res)
                 if dd:
-                    ctx.fail(dd[0], dd[1], case_dir(t1, idx, hide, url, v2[1], inside), True, "noninterference")
+                    ctx.fail(dd[0], dd[1], case_dir(t1, idx, hide, url, v2[1], inside, opt=opt), True, "noninterference")
     ctx.oracle_count("dirapp", nA, nontrivA)
     ctx.oracle_count("noninterference", nA // 2, nontrivA)
 
@@ -1578,7 +1918,7 @@ def _run(ctx, T, mat):
     nC = 0
     for m in check_fileapp_missing(T):
         ctx.fail(m[0], m[1], {"kind": "fileapp-missing"}, True, "fileapp")
-    nC += 15
+    nC += check_fileapp_missing.count
     sizes = [0, 1, 2, 3, 4, 5, 7, 8, 9, 10]
     bss = [1, 2, 3, 4, 8, 9]
     for n in sizes:
@@ -1593,8 +1933,9 @@ def _run(ctx, T, mat):
                     for b in (range(0, n + 3) if form == "first-last" else [0]):
                         rh = range_header(form, a, b)
                         exp = rfc_slice(form, a, b, n)
+                        shape = [None, "pathlib", "kw", "gzip"][(a + b + n) % 4]
                         for meth in ("GET", "HEAD") if (a + b) % 3 == 0 else ("GET",):
-                            res = file_case(T, content, meth, rh, bs, wr)
+                            res = file_case(T, content, meth, rh, bs, wr, None, None, shape)
                             nC += 1
                             m = check_file_response(content, meth, rh, res, exp)
                             if exp == "c06" and not m:
@@ -1604,7 +1945,7 @@ def _run(ctx, T, mat):
                                 c6[k6] = c6.get(k6, 0) + 1
                             if m:
                                 ctx.fail(m[0], m[1], {"kind": "fileapp", "content": content.hex(), "method": meth, "range": rh,
-                                                      "bs": bs, "wrapper": wr, "expect": exp}, True, "fileapp")
+                                                      "bs": bs, "wrapper": wr, "expect": exp, "shape": shape}, True, "fileapp")
     # the real BLOCK_SIZE, file sizes around it and around twice it; short reads; arbitrary Range text (self-consistency)
     B = st.BLOCK_SIZE
     big_sizes = [B - 1, B, B + 1, 2 * B - 1, 2 * B, 2 * B + 1] if ctx.thorough else [B - 1, B, B + 1, 2 * B + 1]
@@ -1656,6 +1997,27 @@ def _run(ctx, T, mat):
         if m:
             ctx.fail(m[0], m[1], {"kind": "fileapp", "content": content.hex(), "method": "GET", "range": rh, "bs": bs, "wrapper": None,
                                   "caps": caps, "expect": rfc_slice(form, a, b, n)}, True, "fileapp")
+    # outside the model's domain (C): conditional request headers.  What stays meaningful: the answer is 304 with no body, or a
+    # self-consistent 200/206/416 whose body is the file / the announced slice of it
+    content = bytes(range(40, 52))
+    conds = [{"If-Modified-Since": "Sat, 01 Jan 2050 00:00:00 GMT"}, {"If-Modified-Since": "Thu, 01 Jan 1998 00:00:00 GMT"},
+             {"If-Modified-Since": "garbage"}, {"If-None-Match": "*"}, {"If-None-Match": '"x"'},
+             {"If-Range": "Sat, 01 Jan 2050 00:00:00 GMT"}, {"If-Range": "Thu, 01 Jan 1998 00:00:00 GMT"}, {"If-Range": '"x"'},
+             {"If-Range": "garbage"}, {"If-Match": '"x"'}, {"If-Unmodified-Since": "Thu, 01 Jan 1998 00:00:00 GMT"}]
+    for hd in conds:
+        for rh in (None, "bytes=2-5", "bytes=-3", "bytes=20-"):
+            for bs, wr in ((3, None), (None, [5, 1])):
+                for meth in ("GET", "HEAD"):
+                    res = file_case(T, content, meth, rh, bs, wr, None, hd)
+                    nC += 1
+                    m = check_file_response(content, meth, rh, res, None, True)
+                    if m:
+                        ctx.fail("cond:" + m[0], "with %r: %s" % (hd, m[1]), {"kind": "fileapp", "content": content.hex(), "method": meth,
+                                                                         "range": rh, "bs": bs, "wrapper": wr, "expect": None,
+                                                                         "headers": hd}, True, "fileapp")
+    for m in check_outside_domain(ctx, T, mat):
+        ctx.fail(m[0], m[1], {"kind": "outside-domain"}, True, "fileapp")
+    nC += check_outside_domain.count
     ctx.oracle_count("fileapp", nC, nC)
 
     # ------------------------------------------------------------------ oracle D+E: FileIter / AppIterRange, exhaustive small bounds
@@ -1726,10 +2088,12 @@ def _run(ctx, T, mat):
         for idx, hide in (CFGS if ti == 0 else [CFGS[(ti + 2) % len(CFGS)], CFGS[(ti * 5 + 3) % len(CFGS)]]):
             for _ in range(ctx.scale(2, 6)):
                 steps = gen_dir_history(rng, tree, rng.randrange(10, 41))
-                m = run_dir_history(T, mat, tree, idx, hide, steps)
+                opt = {"shape": rng.choice(SHAPES), "kw": rng.randrange(len(KWS))}
+                m = run_dir_history(T, mat, tree, idx, hide, steps, opt)
                 nF += sum(1 for x in steps if x[0] == "req")
                 if m:
-                    ctx.fail(m[0], m[1], {"kind": "history-dir", "tree": tree, "idx": idx, "hide": hide, "steps": steps}, True, "history")
+                    ctx.fail(m[0], m[1], {"kind": "history-dir", "tree": tree, "idx": idx, "hide": hide, "steps": steps, "opt": opt},
+                             True, "history")
         if ti < ctx.scale(4, 12):
             idx, hide = CFGS[ti % len(CFGS)]
             names = names_of(tree)
